@@ -252,12 +252,13 @@ func (p *LedgerChannelProposalMsg) Decode(r io.Reader) error {
 	return p.assertValidNumParts()
 }
 
-// Valid checks whether the participant address is nil.
+// Valid checks whether the participant address is missing. A decoded proposal
+// carries a non-nil but possibly empty address map.
 func (p LedgerChannelProposalMsg) Valid() error {
 	if err := p.BaseChannelProposal.Valid(); err != nil {
 		return err
 	}
-	if p.Participant == nil {
+	if len(p.Participant) == 0 {
 		return errors.New("invalid nil participant")
 	}
 	return nil
@@ -593,6 +594,17 @@ func (p *VirtualChannelProposalMsg) Decode(r io.Reader) error {
 // Type returns the message type.
 func (VirtualChannelProposalMsg) Type() wire.Type {
 	return wire.VirtualChannelProposal
+}
+
+// Valid checks whether the proposer address is missing.
+func (p VirtualChannelProposalMsg) Valid() error {
+	if err := p.BaseChannelProposal.Valid(); err != nil {
+		return err
+	}
+	if len(p.Proposer) == 0 {
+		return errors.New("invalid nil proposer")
+	}
+	return nil
 }
 
 // Accept constructs an accept message that belongs to a proposal message.
